@@ -35,6 +35,16 @@ def tdepth : Ty → Nat
   | .eitherRef t => 1 + tdepth t
   | .refT t => 1 + tdepth t
   | .vmStack e => 2 + tdepth e
+  -- the second-round constructors (agent tlb): dictionaries decode keys and values one level down, a reference chain
+  -- re-enters itself only inside a referenced cell, the hand decoders call the component decoders listed in `aux`
+  | .dictE k t => 2 + Nat.max (tdepth k) (tdepth t)
+  | .dict k t => 2 + Nat.max (tdepth k) (tdepth t)
+  | .dictAugE k t x => 2 + Nat.max (tdepth k) (Nat.max (tdepth t) (tdepth x))
+  | .dictAug k t x => 2 + Nat.max (tdepth k) (Nat.max (tdepth t) (tdepth x))
+  | .chain e => 2 + tdepth e
+  | .binTree t => 2 + tdepth t
+  | .highload => 6
+  | .custom _ _ aux => 2 + tdepth aux
   | _ => 1
 /-- decodeFields → decodeField → decode -/
 def fdepth : Fields → Nat
@@ -51,6 +61,10 @@ def rk0 (rk : Nat → Nat) : Ty → Nat
   | .ptr _ t => rk0 rk t
   | .struct fs => rk0F rk fs
   | .sum cs => rk0C rk cs
+  -- entered without anything consumed: the first element of a chain, the root extra of an empty HashmapAugE (after one
+  -- bit: guarded), the components a hand decoder reads first
+  | .chain e => rk0 rk e
+  | .custom _ _ aux => rk0 rk aux
   | _ => 0
 def rk0F (rk : Nat → Nat) : Fields → Nat
   | .nil => 0
